@@ -1,24 +1,39 @@
 """C15 — directories and stdin path lists expand to the same run as explicit files (PARTIAL:
 filesystem and jwalk are oracles).
 
-A. Coq: Props/C15.v — walk sorted component-wise, processed(DIR) = processed(explicit list) modulo
-   walked-only exclusions (entry level), stdin splice, explicit files always attempted.
-B. process_path(path, unparseable_are_text) (in-process, harness c15) on real temporary trees vs
-   the Coq model process_path_m on the description of the same tree (Corr/C15.v).
+A. Coq: Props/C15.v — walk sorted component-wise; lookup from the root on path STRINGS (lookup_walk),
+   processed(DIR) = processed(explicit strings) (dir_equiv_explicit), ".." / canonical locations,
+   stdin at the byte level (stdin_lines_join, stdin_equiv_bytes, CRLF, invalid UTF-8), the run-level
+   equivalence (run_equiv over program_spec), explicit files always attempted.
+B.  process_path(path, unparseable_are_text) (in-process, harness c15) on real temporary trees vs
+    the Coq model process_path_m on the description of the same tree (absolute root + components).
+Bs. process_path(typed string) with the working directory at the tree's root — strings with '.',
+    '..', '//', trailing '/', links in the middle, missing entries, fifos/sockets — vs process_path_s.
+Bi. the path list the s4 binary iterates over (argv with '-', arbitrary bytes on stdin: CRLF, no final
+    newline, empty lines, blanks, invalid UTF-8), read off its "path does not exist" lines, vs args_of.
 C. the property itself on the s4 binary, on files whose timestamps TIE across files so that the
    order of the processed list shows in the output:
      s4 DIR  ==  s4 <every regular file beneath DIR whose name is not a known non-log type, links
                      followed, in component-wise sorted order>
-             ==  printf paths | s4 -   ==  every split of that list between argv and stdin;
+             ==  s4 <DIR typed with '//', './', trailing '/'>
+             ==  printf paths | s4 -   ==  every split of that list between argv and stdin
+             ==  the list with CRLF line ends, with empty lines in between, very long lists;
+     a stdin line with blanks is taken verbatim (names another path);
      s4 <file with a non-log name>  prints the file (always attempted).
 """
-import bz2, gzip, io, json, lzma, os, tarfile
+import bz2, gzip, io, json, lzma, os, re, stat, tarfile
 from concurrent.futures import ThreadPoolExecutor
 import vlib
 from vlib import CACHE
 
 PROP_FILE = "Props/C15.v"
 ENV = {"TZ": "UTC"}
+ESCAPE = 999999     # Corr/C15.v: the model says the string leaves the modelled tree
+
+K_LINK = "symlink_name_and_target_name_select_different_readers"
+K_HIDDEN = "hidden_entry_beneath_directory"
+K_CR = "stdin_path_ends_with_cr"
+K_LOOP = "symlink_text_equals_walk_ancestor_path"
 
 
 def hx(b):
@@ -27,9 +42,12 @@ def hx(b):
 
 # names: (bytes name, kind)   kind: text | gz | bz2 | xz | nonlog | tar
 TEXT_NAMES = ["a.log", "b.log.1", "messages", "syslog", "x y.log", "日本.log", "é.txt", "kern.log.old", "UPPER.LOG",
-              "sub!x.log", "sub.log", "sub-1.log", "sub 2.log", "z.log", "0.log", "data", "notes.txt", "app.log.2024", "m.text"]
+              "sub!x.log", "sub.log", "sub-1.log", "sub 2.log", "z.log", "0.log", "data", "notes.txt", "app.log.2024", "m.text",
+              "-x.log", "a..b.log", " lead.log", "trail.log ", "tab\tx.log"]
 NONLOG_NAMES = ["pic.png", "lib.so", "tool.exe", "snd.mp3", "x y.jpg", "日本.gif", "prog.py", "run.sh", "page.html"]
-DIR_NAMES = ["sub", "d", "e f", "日本", "z", "a", "logs", "sub2", "D"]
+DIR_NAMES = ["sub", "d", "e f", "日本", "z", "a", "logs", "sub2", "D", "d.d", "d..", "-"]
+HIDDEN_FILES = [".hidden.log", ".a", ".日本.log", "..log"]
+HIDDEN_DIRS = [".hid", ".git", "..."]
 COMP = {"gz": gzip.compress, "bz2": bz2.compress, "xz": lzma.compress}
 
 
@@ -39,8 +57,9 @@ def log_content(fid, rng, n=None):
 
 
 class Gen:
-    def __init__(self, rng, base):
+    def __init__(self, rng, base, hidden=False, crname=False):
         self.rng, self.base, self.k = rng, base, 0
+        self.hidden, self.crname = hidden, crname
         self.pool_files = []    # (components below R, name kind, fid)
         self.pool_dirs = []     # (components, node)
 
@@ -89,10 +108,26 @@ class Gen:
             name, kind = self.rng.choice(["arch.tar", "b k.tar"]), "tar"
         else:
             name, kind = self.rng.choice(TEXT_NAMES), "text"
+        if self.hidden and self.rng.random() < 0.2:
+            name, kind = self.rng.choice(HIDDEN_FILES), "text"
+        if self.crname and self.rng.random() < 0.25:
+            name, kind = self.rng.choice(["cr.log\r", "x\r"]), "text"
         if name in used:
             return None
         used.add(name)
         return self.file_node(comps, name, kind)
+
+    def special_node(self, comps, used):
+        name = self.rng.choice(["fifo.log", "pipe", "sock.log", "s ock"])
+        if name in used:
+            return None
+        used.add(name)
+        p = os.path.join(self.base, *comps, name)
+        if "fifo" in name or name == "pipe":
+            os.mkfifo(p)
+        else:
+            os.mknod(p, stat.S_IFSOCK | 0o644)     # a socket inode (bind() would need a short path)
+        return dict(t="S", name=name)
 
     def dir_node(self, comps, depth, links):
         os.makedirs(os.path.join(self.base, *comps), exist_ok=True)
@@ -101,6 +136,8 @@ class Gen:
             r = self.rng.random()
             if r < 0.22 and depth < 3:
                 name = self.rng.choice(DIR_NAMES)
+                if self.hidden and self.rng.random() < 0.2:
+                    name = self.rng.choice(HIDDEN_DIRS)
                 if name in used:
                     continue
                 used.add(name)
@@ -109,6 +146,10 @@ class Gen:
                 ln = self.link_node(comps, used)
                 if ln:
                     children.append(ln)
+            elif r < 0.45:
+                sp = self.special_node(comps, used)
+                if sp:
+                    children.append(sp)
             else:
                 f = self.rand_file(comps, used)
                 if f:
@@ -131,8 +172,8 @@ class Gen:
             if name in used:
                 return None
             used.add(name)
-            os.symlink(os.path.join(self.base, *tcomps), os.path.join(self.base, *comps, name))
-            return dict(t="L", name=name, cname=tcomps[-1], target=tnode)
+            self.symlink(tcomps, comps, name)
+            return dict(t="L", name=name, cpath=list(tcomps), target=tnode)
         if not self.pool_files:
             return None
         tcomps, tnode = self.rng.choice(self.pool_files)
@@ -144,8 +185,16 @@ class Gen:
         if name in used:
             return None
         used.add(name)
-        os.symlink(os.path.join(self.base, *tcomps), os.path.join(self.base, *comps, name))
-        return dict(t="L", name=name, cname=tcomps[-1], target=tnode)
+        self.symlink(tcomps, comps, name)
+        return dict(t="L", name=name, cpath=list(tcomps), target=tnode)
+
+    def symlink(self, tcomps, comps, name):
+        """absolute or relative link text (never equal to the path of an ancestor directory)"""
+        dst = os.path.join(self.base, *comps, name)
+        if self.rng.random() < 0.5:
+            os.symlink(os.path.join(self.base, *tcomps), dst)
+        else:
+            os.symlink(os.path.join(*([".."] * len(comps)), *tcomps), dst)
 
 
 def name_kind(name):
@@ -170,8 +219,13 @@ def link_reader_differs(link_name, target_name):
     return eff(name_kind(link_name)) != eff(name_kind(target_name))
 
 
-def build_universe(rng, base):
-    g = Gen(rng, base)
+def is_hidden_name(name):
+    """known-finding class predicate on one component: jwalk's skip_hidden"""
+    return name.startswith(".")
+
+
+def build_universe(rng, base, hidden=False, crname=False):
+    g = Gen(rng, base, hidden, crname)
     os.makedirs(os.path.join(base, "pool"), exist_ok=True)
     # pool: link targets, no links inside
     pool = g.dir_node(["pool"], 1, links=False)
@@ -194,7 +248,9 @@ def coq_tree(node):
     if node["t"] == "D":
         return "SD [%s]" % "; ".join('("%s", %s)' % (hx(c["name"].encode()), coq_tree(c)) for c in node["children"])
     if node["t"] == "L":
-        return 'SL "%s" (%s)' % (hx(node["cname"].encode()), coq_tree(node["target"]))
+        return 'SL [%s] (%s)' % ("; ".join('"%s"' % hx(c.encode()) for c in node["cpath"]), coq_tree(node["target"]))
+    if node["t"] == "S":
+        return "SS"
     return "SO"
 
 
@@ -204,16 +260,17 @@ def resolve(node):
     return node
 
 
-def spec_walk(node, comps):
+def spec_walk(node, comps, hidden=False):
     """independent statement of 'every regular file beneath it, links followed, sorted path order':
-    (components, file node, entry name, link node or None) in component-wise byte order"""
+    (components, file node, entry name, link node or None, has a hidden component) in component-wise byte order"""
     out = []
     for c in sorted(resolve(node)["children"], key=lambda c: c["name"].encode()):
         r = resolve(c)
+        h = hidden or is_hidden_name(c["name"])
         if r["t"] == "D":
-            out += spec_walk(c, comps + [c["name"]])
+            out += spec_walk(c, comps + [c["name"]], h)
         elif r["t"] == "F":
-            out.append((comps + [c["name"]], r, c["name"], c if c["t"] == "L" else None))
+            out.append((comps + [c["name"]], r, c["name"], c if c["t"] == "L" else None, h))
     return out
 
 
@@ -225,6 +282,16 @@ def all_dirs(node, comps):
     return out
 
 
+def all_entries(node, comps):
+    """every entry beneath (links to directories followed): (components, node)"""
+    out = []
+    for c in resolve(node)["children"]:
+        out.append((comps + [c["name"]], c))
+        if resolve(c)["t"] == "D":
+            out += all_entries(c, comps + [c["name"]])
+    return out
+
+
 def s4(args, inp=None, cwd=None):
     return vlib.run_s4(["--color", "never"] + args, timeout=120, env=ENV, inp=inp, cwd=cwd)
 
@@ -233,7 +300,98 @@ def parse_impl(line):
     out = []
     for t in line.split():
         k, h, c = t.split(":")
-        out.append(({"V": 1, "E": 2, "S": 3, "A": 4, "X": 5}.get(k, 8), h, int(c)))
+        out.append(({"V": 1, "E": 2, "S": 3, "A": 4, "X": 5, "R": 6}.get(k, 8), h, int(c)))
+    return out
+
+
+# ---------------------------------------------------------------- odd spellings of a path
+def odd_string(rng, comps, root_node):
+    """a spelling of the relative path comps[0]/comps[1]/... with '.', '..', '//' and a trailing '/'"""
+    parts = []
+    if rng.random() < 0.3:
+        parts.append(".")
+    node = root_node
+    for i, c in enumerate(comps):
+        parts.append(c)
+        child = None
+        if node is not None and resolve(node)["t"] == "D":
+            child = next((x for x in resolve(node)["children"] if x["name"] == c), None)
+        node = child
+        last = i == len(comps) - 1
+        r = rng.random()
+        if r < 0.15:
+            parts.append("")                       # '//'
+        elif r < 0.3:
+            parts.append(".")                      # '/./'
+        elif r < 0.45 and node is not None and resolve(node)["t"] == "D" and i >= 1:
+            # 'dir/..' then the component again: through a symlink this lands in the TARGET's parent
+            parts.append("..")
+            if node["t"] == "L":
+                if len(node["cpath"]) >= 2:
+                    parts.append(node["cpath"][-1])      # the target's own name, in the target's parent
+                else:
+                    parts.pop()
+            else:
+                parts.append(c)
+    s = "/".join(parts)
+    r = rng.random()
+    if r < 0.15:
+        s += "/"
+    elif r < 0.25:
+        s += "/."
+    elif r < 0.3:
+        s += "//"
+    return s
+
+
+RUST_ESC = re.compile(r'\\(u\{([0-9a-fA-F]+)\}|.)')
+
+
+def rust_unescape(s):
+    def f(m):
+        if m.group(2):
+            return chr(int(m.group(2), 16))
+        return {"n": "\n", "r": "\r", "t": "\t", "0": "\0", "\\": "\\", '"': '"', "'": "'"}.get(m.group(1), m.group(1))
+    return RUST_ESC.sub(f, s)
+
+
+NOEXIST = re.compile(r'^ERROR: path does not exist "(.*)"$')
+
+
+def path_list_from_stderr(err):
+    """the paths main() iterated over, when none of them exists: one message each, in order"""
+    out = []
+    for l in err.decode("utf-8", "replace").split("\n"):
+        m = NOEXIST.match(l)
+        if m:
+            out.append(rust_unescape(m.group(1)))
+    return out
+
+
+def valid_utf8(b):
+    try:
+        b.decode("utf-8")
+        return True
+    except UnicodeDecodeError:
+        return False
+
+
+def spec_lines(data):
+    """what 'paths on stdin, one per line' means (the Coq spec stdin_lines, restated): split at '\\n', a
+    last line without '\\n' counts when not empty, one '\\r' before '\\n' is dropped, stop at invalid UTF-8"""
+    out = []
+    chunks = data.split(b"\n")
+    term = [True] * (len(chunks) - 1) + [False]
+    for c, t in zip(chunks, term):
+        if not t and c == b"":
+            break
+        try:
+            c.decode("utf-8")
+        except UnicodeDecodeError:
+            break
+        if t and c.endswith(b"\r"):
+            c = c[:-1]
+        out.append(c)
     return out
 
 
@@ -255,21 +413,38 @@ def run(ctx):
     for i in range(ntrees):
         base = os.path.join(scratch, "u%03d" % i)
         os.makedirs(base)
-        universes.append((base, build_universe(rng, base)))
+        universes.append((base, build_universe(rng, base, hidden=(i % 12 == 5), crname=(i % 12 == 9))))
+    hdr = vlib.COQ_PRINT_HDR + "From Coq Require Import String List NArith.\nImport ListNotations.\nFrom S4.Corr Require Import C15.\nOpen Scope string_scope.\n"
 
-    # ---------------------------------------------------------------- B
+    def eval_cases(tag, n, mk_text, fn, what):
+        """shard n cases, evaluate `fn cases` in Coq, return [(case index, value)] or None"""
+        idx = list(range(n))
+        shards = [sh for sh in vlib.shard(idx, vlib.NCPU) if sh]
+        texts = [hdr + mk_text(sh) + "Eval vm_compute in (%s cases).\n" % fn for sh in shards]
+        res = vlib.coq_eval_shards(os.path.join(CACHE, "cases", "C15", tag), texts)
+        out = []
+        for sh, (rc, o) in zip(shards, res):
+            pairs = vlib.parse_eval_pairs(o) if rc == 0 else None
+            if pairs is None:
+                ctx.obligation_broken("correspondence", "model evaluation (coqc on C15 %s cases)" % what, o)
+                return None
+            out += [(sh[k], v) for k, v in pairs]
+        return out
+
+    # ---------------------------------------------------------------- B (components) and Bs (strings)
     reqs = []   # (universe index, components, uat)
+    sreqs = []  # (universe index, typed string, uat)
     for ui, (base, root) in enumerate(universes):
         top = [c for c in root["children"] if c["name"] == "top"][0]
         dirs = all_dirs(top, ["top"])
         files = spec_walk(top, ["top"])
         cand = [["top"]] + [d[0] for d in rng.sample(dirs, min(3, len(dirs)))] + [f[0] for f in rng.sample(files, min(5, len(files)))]
         cand += [["top", "no such entry"], ["pool"]]
-        # links and broken links by their own path
+        # links, broken links and special files by their own path
         def links(node, comps):
             out = []
             for c in resolve(node)["children"]:
-                if c["t"] in ("L", "O"):
+                if c["t"] in ("L", "O", "S"):
                     out.append(comps + [c["name"]])
                 if resolve(c)["t"] == "D" and c["t"] == "D":
                     out += links(c, comps + [c["name"]])
@@ -278,44 +453,118 @@ def run(ctx):
         cand += rng.sample(ls, min(4, len(ls)))
         for comps in cand:
             reqs.append((ui, comps, rng.random() < 0.7))
+        # typed strings, relative to the universe's root
+        ents = all_entries(top, ["top"])
+        scand = [["top"]] + [e[0] for e in rng.sample(ents, min(6, len(ents)))] + [l for l in rng.sample(ls, min(2, len(ls)))]
+        strs = [odd_string(rng, comps, root) for comps in scand]
+        strs += [rng.choice(["", ".", "./", "top/", "top//", "./top/.", "top/nosuch/..", "top/no such", "pool/../top", "top/../top/."])]
+        if files:
+            f = rng.choice(files)[0]
+            strs.append("/".join(f) + rng.choice(["/", "/.", "/..", "/x", "//"]))     # ENOTDIR
+        if ents:
+            e = rng.choice(ents)[0]
+            strs.append("/".join(e[:-1] + ["..", e[-2] if len(e) >= 2 else "top", e[-1]]) if len(e) >= 2 else "/".join(e))
+        for s in strs:
+            sreqs.append((ui, s, rng.random() < 0.7))
     lines = ["%s\t%d" % (hx(os.path.join(universes[ui][0], *comps).encode()), 1 if uat else 0) for ui, comps, uat in reqs]
+    lines += ["%s\t%d\t%s" % (hx(s.encode()), 1 if uat else 0, hx(universes[ui][0].encode())) for ui, s, uat in sreqs]
     outl, err = vlib.harness("c15", lines)
-    model_dis = []
+    model_dis, model_dis_s, escapes = [], [], 0
     if outl is None or len(outl) != len(lines):
         ctx.obligation_broken("correspondence", "harness c15 run", err)
     else:
-        hdr = vlib.COQ_PRINT_HDR + "From Coq Require Import String List NArith.\nImport ListNotations.\nFrom S4.Corr Require Import C15.\nOpen Scope string_scope.\n"
-        idx = list(range(len(reqs)))
-        shards = vlib.shard(idx, vlib.NCPU)
-        texts = []
-        for sh in shards:
+        souts = outl[len(reqs):]
+
+        def text_b(sh):
             us = sorted(set(reqs[i][0] for i in sh))
             defs = "".join("Definition u%d : stree := %s.\n" % (u, coq_tree(universes[u][1])) for u in us)
             rows = []
             for i in sh:
                 ui, comps, uat = reqs[i]
-                impl = parse_impl(outl[i]) if outl[i] != "PANIC" else [(8, "", 0)]
+                impl = parse_impl(outl[i]) if outl[i] not in ("PANIC", "CHDIR-FAILED") else [(8, "", 0)]
                 rows.append('("%s", u%d, %s, [%s], [%s])' % (hx(universes[ui][0].encode()), ui, "true" if uat else "false",
                             "; ".join('"%s"' % hx(c.encode()) for c in comps),
                             "; ".join('(%d%%N, "%s", %d%%N)' % r for r in impl)))
-            texts.append(hdr + defs + "Definition cases : list case_t := [\n%s\n].\nEval vm_compute in (model_bad cases).\n" % ";\n".join(rows))
-        res = vlib.coq_eval_shards(os.path.join(CACHE, "cases", "C15", "model"), texts)
-        for sh, (rc, out) in zip(shards, res):
-            pairs = vlib.parse_eval_pairs(out) if rc == 0 else None
-            if pairs is None:
-                ctx.obligation_broken("correspondence", "model evaluation (coqc on C15 cases)", out)
-                break
-            for k, v in pairs:
-                model_dis.append((sh[k], v))
-        for i, v in model_dis[:1]:
-            ui, comps, uat = reqs[i]
-            ctx.obligation_broken("correspondence", "process_path vs Model.Walk.process_path_m",
-                                  json.dumps(dict(path=os.path.join(universes[ui][0], *comps), unparseable_are_text=uat, impl=outl[i][:1500],
-                                                  model_result_count=v, tree=coq_tree(universes[ui][1])[:3000], disagreements=len(model_dis))))
+            return defs + "Definition cases : list case_t := [\n%s\n].\n" % ";\n".join(rows)
+        r = eval_cases("model", len(reqs), text_b, "model_bad", "component")
+        if r is not None:
+            model_dis = r
+            for i, v in model_dis[:1]:
+                ui, comps, uat = reqs[i]
+                ctx.obligation_broken("correspondence", "process_path vs Model.Walk.process_path_m",
+                                      json.dumps(dict(path=os.path.join(universes[ui][0], *comps), unparseable_are_text=uat, impl=outl[i][:1500],
+                                                      model_result_count=v, tree=coq_tree(universes[ui][1])[:3000], disagreements=len(model_dis))))
+
+        def text_s(sh):
+            us = sorted(set(sreqs[i][0] for i in sh))
+            defs = "".join("Definition u%d : stree := %s.\n" % (u, coq_tree(universes[u][1])) for u in us)
+            rows = []
+            for i in sh:
+                ui, s, uat = sreqs[i]
+                impl = parse_impl(souts[i]) if souts[i] not in ("PANIC", "CHDIR-FAILED") else [(8, "", 0)]
+                rows.append('(u%d, %s, "%s", [%s])' % (ui, "true" if uat else "false", hx(s.encode()),
+                            "; ".join('(%d%%N, "%s", %d%%N)' % r for r in impl)))
+            return defs + "Definition cases : list case_s := [\n%s\n].\n" % ";\n".join(rows)
+        r = eval_cases("models", len(sreqs), text_s, "model_bad_s", "string")
+        if r is not None:
+            escapes = sum(1 for i, v in r if v == ESCAPE)
+            model_dis_s = [(i, v) for i, v in r if v != ESCAPE]
+            for i, v in model_dis_s[:1]:
+                ui, s, uat = sreqs[i]
+                ctx.obligation_broken("correspondence", "process_path on a typed string vs Model.Walk.process_path_s (lookup_str, rjoin, walk_base)",
+                                      json.dumps(dict(cwd=universes[ui][0], typed=s, unparseable_are_text=uat, impl=souts[i][:1500],
+                                                      model_result_count=v, tree=coq_tree(universes[ui][1])[:3000], disagreements=len(model_dis_s))))
+            if escapes * 10 > len(sreqs):
+                ctx.obligation_broken("correspondence", "too many typed strings leave the modelled tree", "%d of %d" % (escapes, len(sreqs)))
+
+    # ---------------------------------------------------------------- Bi: argv + stdin bytes -> path list
+    empty = os.path.join(scratch, "empty")
+    os.makedirs(empty)
+    ALPH = [b"a", b"b", b"xy", b" ", b"\t", b"\r", b"\n", b"\n", b"\r\n", b"-", b"\xc3\xa9", b"\xe6\x97\xa5", b"q.log", b"\\", b"\"", b"'"]
+    icases = []
+    for k in range(160 if quick else 2000):
+        n = rng.randrange(0, 14)
+        data = b"".join(rng.choice(ALPH) for _ in range(n))
+        r = rng.random()
+        if r < 0.12:
+            pos = rng.randrange(0, len(data) + 1)
+            data = data[:pos] + rng.choice([b"\xff", b"\xc3", b"\xe6\x97", b"\xc0\xaf", b"\xed\xa0\x80"]) + data[pos:]
+        elif r < 0.2:
+            data += rng.choice([b"\n", b"\r\n", b"\r", b"\n\n"])
+        argv = []
+        for _ in range(rng.randrange(0, 3)):
+            argv.append(rng.choice(["p1", "p 2", "é3", "-", "q-"]))
+        argv.insert(rng.randrange(0, len(argv) + 1), "-")
+        icases.append((argv, data))
+    with ThreadPoolExecutor(max_workers=vlib.NCPU) as ex:
+        iouts = list(ex.map(lambda c: s4(c[0], inp=c[1], cwd=empty), icases))
+    stdin_dis = []
+    bad_run = [i for i, o in enumerate(iouts) if o[0] == 124 or o[1] != b""]
+    if bad_run:
+        i = bad_run[0]
+        ctx.obligation_broken("correspondence", "s4 run for the stdin path list", json.dumps(dict(argv=icases[i][0], stdin_hex=hx(icases[i][1]), rc=iouts[i][0])))
+    else:
+        impl_lists = [path_list_from_stderr(o[2]) for o in iouts]
+
+        def text_i(sh):
+            rows = []
+            for i in sh:
+                argv, data = icases[i]
+                rows.append('([%s], "%s", [%s])' % ("; ".join('"%s"' % hx(a.encode()) for a in argv), hx(data),
+                                                   "; ".join('"%s"' % hx(p.encode()) for p in impl_lists[i])))
+            return "Definition cases : list case_i := [\n%s\n].\n" % ";\n".join(rows)
+        r = eval_cases("stdin", len(icases), text_i, "model_bad_i", "stdin")
+        if r is not None:
+            stdin_dis = r
+            for i, v in stdin_dis[:1]:
+                ctx.obligation_broken("correspondence", "path list of s4 (argv with '-', bytes on stdin) vs Model.Walk.args_of",
+                                      json.dumps(dict(argv=icases[i][0], stdin_hex=hx(icases[i][1]), impl_paths=impl_lists[i], model_path_count=v,
+                                                      disagreements=len(stdin_dis))))
 
     # ---------------------------------------------------------------- C
-    runs = []    # (tag, args, stdin, cwd)
+    runs = []    # (args, stdin, cwd)
     plan = []    # per comparison group
+    long_done = False
     for ui, (base, root) in enumerate(universes):
         top = [c for c in root["children"] if c["name"] == "top"][0]
         dirs = all_dirs(top, ["top"])
@@ -326,23 +575,65 @@ def run(ctx):
             def P(c):
                 return os.path.join(*c) if rel else os.path.join(base, *c)
             paths = [P(f[0]) for f in listed]
+            paths_model = [P(f[0]) for f in listed if not f[4]]       # what the code is known to do: hidden entries skipped
             cwd = base if rel else None
             cls = []
-            if any(f[3] is not None and link_reader_differs(f[2], f[3]["cname"]) for f in listed):
-                cls = ["symlink_name_and_target_name_select_different_readers"]
-            g = dict(ui=ui, dir=P(comps), paths=paths, cls=cls, cwd=cwd, runs={})
-            def add(tag, args, inp=None):
+            if any(f[3] is not None and link_reader_differs(f[2], f[3]["cpath"][-1]) for f in listed):
+                cls.append(K_LINK)
+            g = dict(ui=ui, dir=P(comps), paths=paths, paths_model=paths_model, cls=cls, cwd=cwd, runs={}, stdin_spec={})
+            def add(tag, args, inp=None, spec=None):
                 g["runs"][tag] = len(runs)
                 runs.append((args, inp, cwd))
+                if spec is not None:
+                    g["stdin_spec"][tag] = spec
             add("dir", [P(comps)])
+            d0 = P(comps)
+            odd = rng.choice([d0 + "/", d0 + "//", d0 + "/.", "./" + d0 if rel else d0 + "/./", d0.replace("/", "//", 1) if "/" in d0 else d0 + "/"])
+            add("dir_odd", [odd])
+            kids = resolve(dnode)["children"]
+            real_sub = [c["name"] for c in kids if c["t"] == "D"]
+            if real_sub and rng.random() < 0.5:
+                add("dir_odd2", [d0 + "/" + rng.choice(real_sub) + "/.."])          # a real sub-directory and back
+            # through a symlink to a directory ".." is the parent of the TARGET: DIR/link/../<target's name> names the target
+            lk = [c for c in kids if c["t"] == "L" and resolve(c)["t"] == "D" and len(c["cpath"]) >= 2]
+            if lk:
+                c = rng.choice(lk)
+                add("dotdot_link", [d0 + "/" + c["name"] + "/../" + c["cpath"][-1]])
+                add("dotdot_link_spec", [P(c["cpath"])])
             if paths:
                 add("explicit", paths)
+                if paths_model != paths:
+                    add("explicit_model", paths_model) if paths_model else None
                 add("stdin", ["-"], ("\n".join(paths) + "\n").encode())
                 k = rng.randrange(0, len(paths) + 1)
                 j = rng.randrange(k, len(paths) + 1)
                 add("split", paths[:k] + ["-"] + paths[j:], ("\n".join(paths[k:j]) + ("\n" if j > k else "")).encode())
                 add("split_nonl", paths[:1] + ["-"], "\n".join(paths[1:]).encode())     # no final newline
                 add("dash_twice", ["-"] + paths[len(paths) // 2:] + ["-"], ("\n".join(paths[:len(paths) // 2]) + "\n").encode() if len(paths) // 2 else b"")
+                add("crlf", ["-"], ("\r\n".join(paths) + "\r\n").encode())
+                add("empty_lines", ["-"], ("\n" + "\n\n".join(paths) + "\n\n").encode())
+                # a line with blanks is another path: the spec run names the lines verbatim
+                bl = list(paths)
+                bi = rng.randrange(len(bl))
+                bl[bi] = rng.choice([" " + bl[bi], bl[bi] + " ", bl[bi] + "\t", "\t" + bl[bi]])
+                add("blanks", ["-"], ("\n".join(bl) + "\n").encode(), spec=bl)
+                add("blanks_spec", bl)
+                if not long_done and len(paths) >= 2:
+                    long_done = True
+                    ll = (paths * (400 // len(paths) + 1))[:400]
+                    add("long", ["-"], ("\n".join(ll)).encode(), spec=ll)
+                    add("long_spec", ll)
+            plan.append(g)
+        # '..' after a symlink to a directory, wherever the tree has one
+        dl = [(c, n) for c, n in all_entries(top, ["top"]) if n["t"] == "L" and resolve(n)["t"] == "D" and len(n["cpath"]) >= 2]
+        for lcomps, n in rng.sample(dl, min(2, len(dl))):
+            rel = rng.random() < 0.5
+            pre = "" if rel else base + "/"
+            g = dict(ui=ui, pair=True, cwd=base if rel else None, runs={},
+                     spelled=pre + "/".join(lcomps) + "/../" + n["cpath"][-1], plain=pre + "/".join(n["cpath"]))
+            for tag in ("spelled", "plain"):
+                g["runs"][tag] = len(runs)
+                runs.append(([g[tag]], None, g["cwd"]))
             plan.append(g)
         # explicit non-log names are attempted
         files = spec_walk(top, ["top"])
@@ -351,11 +642,25 @@ def run(ctx):
             g["runs"]["single"] = len(runs)
             runs.append(([g["single"]], None, None))
             plan.append(g)
+    # the recorded jwalk defect, exhibited once per run: a symlink whose TEXT is the typed path of an ancestor
+    lbase = os.path.join(scratch, "loopcase")
+    os.makedirs(os.path.join(lbase, "top", "sub", "top"))
+    for p, fid in (("top/a.log", "LA"), ("top/sub/s.log", "LS"), ("top/sub/top/t.log", "LT")):
+        open(os.path.join(lbase, p), "wb").write(log_content(fid, rng, 2))
+    os.symlink("top", os.path.join(lbase, "top", "sub", "zlink"))      # top/sub/zlink -> top/sub/top ; text "top" = the walk root as typed
+    loop_paths = ["top/a.log", "top/sub/s.log", "top/sub/top/t.log", "top/sub/zlink/t.log"]
+    gl = dict(ui=None, dir="top", paths=loop_paths, paths_model=loop_paths[:3], cls=[], cwd=lbase, runs={}, stdin_spec={}, loopcase=True)
+    for tag, args in (("dir", ["top"]), ("explicit", loop_paths), ("explicit_model", loop_paths[:3])):
+        gl["runs"][tag] = len(runs)
+        runs.append((args, None, lbase))
+    plan.append(gl)
 
     with ThreadPoolExecutor(max_workers=vlib.NCPU) as ex:
         outs = list(ex.map(lambda r: s4(r[0], inp=r[1], cwd=r[2]), runs))
     comparisons = nontrivial = fails = stdin_fail = attempted = 0
     tie_groups = 0
+    stdin_variants = {}
+    dotdot_cmp = {}
     for g in plan:
         if "single" in g:
             o = outs[g["runs"]["single"]]
@@ -367,55 +672,116 @@ def run(ctx):
                 ctx.failure(dict(kind="explicit file with a non-log name", path=g["single"], content_hex=hx(want)), "stdout = the file's %d bytes" % len(want),
                             "stdout %d bytes rc %d stderr %s" % (len(o[1]), o[0], o[2][:200].decode("utf-8", "replace")))
             continue
+        if "pair" in g:
+            o, w = outs[g["runs"]["spelled"]], outs[g["runs"]["plain"]]
+            comparisons += 1
+            dotdot_cmp["dotdot_link"] = dotdot_cmp.get("dotdot_link", 0) + 1
+            if o[1] != w[1]:
+                fails += 1
+                ctx.failure(dict(kind="directory spelled differently", dir=g["plain"], spelled=g["spelled"], cwd=g["cwd"], tree=coq_tree(universes[g["ui"]][1])[:6000],
+                                 what="'..' after a symlink to a directory is the parent of the link's target"),
+                            "stdout of `s4 %s` (%d bytes)" % (g["plain"], len(w[1])), "stdout %d bytes" % len(o[1]))
+            continue
         d = outs[g["runs"]["dir"]]
+        tree = coq_tree(universes[g["ui"]][1])[:6000] if g["ui"] is not None else "top/{a.log, sub/{s.log, top/{t.log}, zlink -> 'top'}}"
+        if "dir_odd" in g["runs"]:
+            o = outs[g["runs"]["dir_odd"]]
+            comparisons += 1
+            if o[1] != d[1]:
+                fails += 1
+                ctx.failure(dict(kind="directory spelled differently", dir=g["dir"], spelled=runs[g["runs"]["dir_odd"]][0][0], cwd=g["cwd"], tree=tree),
+                            "stdout of `s4 %s` (%d bytes)" % (g["dir"], len(d[1])), "stdout %d bytes" % len(o[1]))
+        for tag, want_tag, what in (("dir_odd2", "dir", "directory spelled differently"), ("dotdot_link", "dotdot_link_spec", "'..' after a symlink to a directory")):
+            if tag in g["runs"]:
+                o, w = outs[g["runs"][tag]], outs[g["runs"][want_tag]]
+                comparisons += 1
+                dotdot_cmp[tag] = dotdot_cmp.get(tag, 0) + 1
+                if o[1] != w[1]:
+                    fails += 1
+                    ctx.failure(dict(kind="directory spelled differently", dir=runs[g["runs"][want_tag]][0][0], spelled=runs[g["runs"][tag]][0][0], cwd=g["cwd"], tree=tree, what=what),
+                                "stdout of `s4 %s` (%d bytes)" % (runs[g["runs"][want_tag]][0][0], len(w[1])), "stdout %d bytes" % len(o[1]))
         if not g["paths"]:
             comparisons += 1
             if d[1] != b"":
                 fails += 1
-                ctx.failure(dict(kind="dir with no listed file", dir=g["dir"], tree=coq_tree(universes[g["ui"]][1])[:4000]), "empty stdout", hx(d[1][:300]))
+                ctx.failure(dict(kind="dir with no listed file", dir=g["dir"], tree=tree), "empty stdout", hx(d[1][:300]))
             continue
         e = outs[g["runs"]["explicit"]]
-        for tag in ("stdin", "split", "split_nonl", "dash_twice"):
+        for tag in ("stdin", "split", "split_nonl", "dash_twice", "crlf", "empty_lines", "blanks", "long"):
+            if tag not in g["runs"]:
+                continue
             o = outs[g["runs"][tag]]
+            r = runs[g["runs"][tag]]
+            want = outs[g["runs"][tag + "_spec"]] if tag + "_spec" in g["runs"] else e
             comparisons += 1
-            if o[1] != e[1]:
+            stdin_variants[tag] = stdin_variants.get(tag, 0) + 1
+            if o[1] != want[1]:
                 fails += 1
                 stdin_fail += 1
-                r = runs[g["runs"][tag]]
-                ctx.failure(dict(kind="stdin split", variant=tag, args=r[0], stdin_hex=hx(r[1] or b""), cwd=r[2], explicit_args=g["paths"]),
-                            "stdout of the explicit argument list (%d bytes)" % len(e[1]), "stdout %d bytes" % len(o[1]))
+                # known: a listed path that ends in '\r' loses it when '\n' follows
+                cls = []
+                lines_in = (r[1] or b"").split(b"\n")
+                if any(l.endswith(b"\r") and not (tag == "crlf") for l in lines_in[:-1]) or \
+                   (tag == "crlf" and any(l.endswith(b"\r\r") for l in lines_in[:-1])):
+                    cls = [K_CR]
+                ctx.failure(dict(kind="stdin split", variant=tag, args=r[0], stdin_hex=hx(r[1] or b""), cwd=r[2],
+                                 explicit_args=g["stdin_spec"].get(tag, g["paths"])),
+                            "stdout of the explicit argument list (%d bytes)" % len(want[1]), "stdout %d bytes" % len(o[1]), cls)
         comparisons += 1
         if len(g["paths"]) >= 2 and e[1]:
             nontrivial += 1
             tie_groups += 1
         if d[1] != e[1]:
             fails += 1
-            ctx.failure(dict(kind="directory vs explicit list", dir=g["dir"], explicit_args=g["paths"], cwd=g["cwd"], tree=coq_tree(universes[g["ui"]][1])[:6000]),
+            cls = list(g["cls"])
+            # the recorded deviations, and only them: hidden entries are skipped (and, in the fixed case, the "loop" link)
+            if g["paths_model"] != g["paths"]:
+                em = outs[g["runs"]["explicit_model"]][1] if "explicit_model" in g["runs"] else b""
+                if d[1] == em or K_LINK in cls:
+                    cls.append(K_LOOP if g.get("loopcase") else K_HIDDEN)
+            ctx.failure(dict(kind="directory vs explicit list", dir=g["dir"], explicit_args=g["paths"], cwd=g["cwd"], tree=tree),
                         "stdout of `s4 <explicit list>` (%d bytes): %s" % (len(e[1]), e[1][:300].decode("utf-8", "replace")),
-                        "stdout of `s4 DIR` (%d bytes): %s" % (len(d[1]), d[1][:300].decode("utf-8", "replace")), g["cls"])
+                        "stdout of `s4 DIR` (%d bytes): %s" % (len(d[1]), d[1][:300].decode("utf-8", "replace")),
+                        [c for c in cls if c != K_LOOP or g.get("loopcase")])
 
     hist = {}
     def count(node):
         for c in node.get("children", []):
             k = c["t"] + (":" + c["kind"] if c["t"] == "F" else "")
+            if is_hidden_name(c["name"]):
+                k += ":hidden"
             hist[k] = hist.get(k, 0) + 1
             if c["t"] == "D":
                 count(c)
     for base, root in universes:
         count(root)
+    sfeat = {}
+    for _, s, _ in sreqs:
+        for k, f in (("dotdot", "/.." in s or s.startswith("..")), ("dot", "/./" in s or s.startswith("./") or s.endswith("/.")), ("double_slash", "//" in s),
+                     ("trailing_slash", s.endswith("/")), ("plain", not any(x in s for x in ("//", "/.", "./")) and not s.endswith("/"))):
+            if f:
+                sfeat[k] = sfeat.get(k, 0) + 1
     ctx.coverage.update(
-        evaluations=len(reqs) + comparisons,
-        distinct_nontrivial=len(set((r[0], tuple(r[1])) for r in reqs if len(r[1]) >= 1)) + nontrivial,
-        rule="B: one evaluation = process_path on one path (a directory, a sub-directory, a file, a symlink, a broken link, a missing path) of a generated tree vs the Coq model on the tree's description; C: one comparison = stdout of two invocations of the s4 binary on the same tree (DIR vs explicit sorted list; explicit list vs stdin / argv+stdin splits); non-trivial = the explicit list has >= 2 files and prints something (every file carries the same timestamps, so the order of the processed list decides the output); distinct by (tree, path)",
-        samples=[dict(tree=coq_tree(universes[0][1])[:600])],
+        evaluations=len(reqs) + len(sreqs) + len(icases) + comparisons,
+        distinct_nontrivial=len(set((r[0], tuple(r[1])) for r in reqs if len(r[1]) >= 1)) + len(set((r[0], r[1]) for r in sreqs if "/" in r[1]))
+                            + len(set((tuple(c[0]), c[1]) for c in icases if b"\n" in c[1])) + nontrivial,
+        rule="B: one evaluation = process_path on one path (a directory, a sub-directory, a file, a symlink, a broken link, a fifo/socket, a missing path) of a generated tree vs the Coq model on the tree's description; Bs: the same on a typed relative path STRING (non-trivial: it has more than one component); Bi: one evaluation = the path list of one s4 invocation (argv with '-', random bytes on stdin) vs the Coq args_of (non-trivial: stdin holds a newline); C: one comparison = stdout of two invocations of the s4 binary on the same tree (DIR vs explicit sorted list; DIR vs DIR spelled with '//', './', trailing '/'; explicit list vs stdin / argv+stdin splits / CRLF / empty lines / blanks / a 400-line list); non-trivial = the explicit list has >= 2 files and prints something (every file carries the same timestamps, so the order of the processed list decides the output); distinct by (tree, path)",
+        samples=[dict(tree=coq_tree(universes[0][1])[:600]), dict(typed_strings=[s for _, s, _ in sreqs[:12]]),
+                 dict(stdin_case=dict(argv=icases[0][0], stdin_hex=hx(icases[0][1])))],
         trees=len(universes), process_path_requests=len(reqs), model_disagreements=len(model_dis),
-        stdout_runs=len(runs), stdout_comparisons=comparisons, stdout_failures=fails, stdin_split_failures=stdin_fail,
-        explicit_nonlog_attempted=attempted, groups_with_ties=tie_groups, node_histogram=hist)
+        typed_string_requests=len(sreqs), typed_string_disagreements=len(model_dis_s), typed_strings_outside_model=escapes, typed_string_features=sfeat,
+        stdin_path_list_cases=len(icases), stdin_path_list_disagreements=len(stdin_dis),
+        stdin_cases_with_invalid_utf8=sum(1 for c in icases if not valid_utf8(c[1])),
+        stdin_cases_with_cr=sum(1 for c in icases if b"\r" in c[1]), stdin_cases_without_final_newline=sum(1 for c in icases if c[1] and not c[1].endswith(b"\n")),
+        stdout_runs=len(runs), stdout_comparisons=comparisons, stdout_failures=fails, stdin_split_failures=stdin_fail, stdin_variants=stdin_variants,
+        dotdot_comparisons=dotdot_cmp, explicit_nonlog_attempted=attempted, groups_with_ties=tie_groups, node_histogram=hist)
     ctx.assumptions += [
-        "the filesystem and jwalk are oracles: the tree description (symlinks pre-resolved, canonical target name) is what stat/readdir/readlink/canonicalize answer; symlink loops, permission errors, special files and concurrent modification are not generated",
-        "jwalk's sort(true) orders the children of a directory by file name as bytes (model: insertion sort by bytes_ltb); sampled by B",
-        "the output of a run is a function of the FileValid records of the processed list in order (C01/C06); error records only produce stderr lines",
-        "paths are valid UTF-8 without newline (argv and stdin lines are Strings); stdout compared with --color never, TZ=UTC, no -n/-p (no file names printed)",
+        "the filesystem and jwalk are oracles: the tree description (symlinks pre-resolved, canonical target location) is what stat/readdir/readlink/canonicalize answer; symlink loops and concurrent modification are not generated; the check runs as root, so permission errors (EACCES on a directory without read permission) cannot be exercised here",
+        "jwalk's sort(true) orders the children of a directory by file name as bytes (model: insertion sort by bytes_ltb), skip_hidden (its default) drops entries whose name starts with '.'; sampled by B and Bs",
+        "typed strings are modelled relative to the working directory = the root of the modelled tree (Bs runs process_path after chdir there); absolute strings are covered at the component level (B) and by the stdout comparisons (C)",
+        "the output of a run is a function of the FileValid records of the processed list in order (C01/C06: program_spec); error records only produce stderr lines",
+        "paths are valid UTF-8 (argv and stdin lines are Strings; clap rejects other argv); stdout compared with --color never, TZ=UTC, no -n/-p (no file names printed)",
+        "Bi reads the path list off the 'path does not exist' messages (one per path, in PathId order) in an empty directory, un-escaping Rust's {:?}",
     ]
     return ctx.finish()
 
@@ -430,6 +796,11 @@ def replay(ctx, path):
             a = s4([c["dir"]], cwd=c.get("cwd"))
             b = s4(c["explicit_args"], cwd=c.get("cwd"))
             print("replay DIR=%s: dir %d bytes, explicit %d bytes, equal=%s" % (c["dir"], len(a[1]), len(b[1]), a[1] == b[1]))
+            bad += a[1] != b[1]
+        elif c.get("kind") == "directory spelled differently" and os.path.exists(c["dir"] if os.path.isabs(c["dir"]) else os.path.join(c.get("cwd") or ".", c["dir"])):
+            a = s4([c["dir"]], cwd=c.get("cwd"))
+            b = s4([c["spelled"]], cwd=c.get("cwd"))
+            print("replay DIR=%s spelled %s: %d vs %d bytes equal=%s" % (c["dir"], c["spelled"], len(a[1]), len(b[1]), a[1] == b[1]))
             bad += a[1] != b[1]
         elif c.get("kind") == "stdin split" and c.get("explicit_args"):
             a = s4(c["args"], inp=bytes.fromhex(c["stdin_hex"]), cwd=c.get("cwd"))
